@@ -27,14 +27,19 @@ structure WFDesc (p : Proto) (d : Desc) : Prop where
 /-- the arguments of an id function as the callers in `sertypes` build them -/
 def IdKey.callerShaped : IdKey → Prop
   | .coll _ subs names => ∀ ns, names = some ns → ns.length = subs.length
-  | .shape _ subs names cards lp links _ =>
+  | .shape _ subs names cards lp links _ srcs =>
       (∀ ns, names = some ns → ns.length = subs.length) ∧
       (∀ cs, cards = some cs → cs.length = subs.length ∧ names.isSome) ∧
-      (∀ l, lp = some l → l.length = subs.length) ∧ (∀ l, links = some l → l.length = subs.length)
+      (∀ l, lp = some l → l.length = subs.length) ∧ (∀ l, links = some l → l.length = subs.length) ∧
+      (∀ l, srcs = some l → l.length = subs.length)
   | .setOf _ => True
 
 /-- no `\x00` and no `:` inside (the texts `str(uuid)`) -/
 def sepFree (b : Bytes) : Prop := 0 ∉ b ∧ 58 ∉ b
+
+/-- the text of a `str(uuid)`: non-empty, lower-case hex digits and `-` -/
+def uuidText (s : Bytes) : Prop :=
+  s ≠ [] ∧ ∀ c ∈ s, (48 ≤ c ∧ c ≤ 57) ∨ (97 ≤ c ∧ c ≤ 102) ∨ c = 45
 
 /-- What the id strings still rely on after fix c2beb91: the type name, the id
     texts and the element NAMES contain no NUL (the part separator; the EdgeQL
@@ -44,15 +49,18 @@ def sepFree (b : Bytes) : Prop := 0 ∉ b ∧ 58 ∉ b
 def IdKey.NoSep : IdKey → Prop
   | .coll ct subs names =>
       0 ∉ ct ∧ (∀ s ∈ subs, sepFree s ∧ s ≠ []) ∧ ∀ ns, names = some ns → ∀ n ∈ ns, 0 ∉ n
-  | .shape base subs names cards _ _ _ =>
+  | .shape base subs names cards _ _ _ srcs =>
       0 ∉ base ∧ (∀ s ∈ subs, sepFree s ∧ s ≠ []) ∧ (∀ ns, names = some ns → ∀ n ∈ ns, 0 ∉ n) ∧
-      ∀ cs, cards = some cs → ∀ c ∈ cs, c ≠ 0 ∧ c ≠ 58
+      (∀ cs, cards = some cs → ∀ c ∈ cs, c ≠ 0 ∧ c ≠ 58) ∧
+      -- the source type ids are `str(uuid)` texts (the `;sources` tail must not be
+      -- mistaken for `repr(links)`, which starts with `N` or `[`)
+      ∀ l, srcs = some l → ∀ s ∈ l, uuidText s
   | .setOf s => 0 ∉ s
 
 /-- the hypothesis the PRE-fix strings needed in addition: no `:` in a name -/
 def IdKey.NoColonNames : IdKey → Prop
   | .coll _ _ names => ∀ ns, names = some ns → ∀ n ∈ ns, 58 ∉ n
-  | .shape _ _ names _ _ _ _ => ∀ ns, names = some ns → ∀ n ∈ ns, 58 ∉ n
+  | .shape _ _ names _ _ _ _ _ => ∀ ns, names = some ns → ∀ n ∈ ns, 58 ∉ n
   | .setOf _ => True
 
 /-- which of the three id functions -/
@@ -62,7 +70,15 @@ def IdKey.fn : IdKey → Nat
 /-- the key with "falsy" optional lists (`if element_names:`) normalised away -/
 def IdKey.norm : IdKey → IdKey
   | .coll ct subs names => .coll ct subs (truthy names)
-  | .shape base subs names cards lp links impl => .shape base subs (truthy names) (truthy cards) lp links impl
+  | .shape base subs names cards lp links impl srcs =>
+      .shape base subs (truthy names) (truthy cards) lp links impl (truthy srcs)
   | .setOf s => .setOf s
+
+/-- The key `_describe_object_shape` builds (fix d2d2129): the source type ids are
+    passed only when some element's source differs from the shape's own type `mt`. -/
+def shapeKeyOf (base : Bytes) (mt : Bytes) (subs names : List Bytes) (cards : List Nat)
+    (lp links : List Bool) (impl : Bool) (sources : List Bytes) : IdKey :=
+  .shape base subs (some names) (some cards) (some lp) (some links) impl
+    (if sources.any (· != mt) then some sources else none)
 
 end EdbVerif.Desc
